@@ -69,6 +69,13 @@ type outcome struct {
 	PEnts  []int64 `json:"pents"`
 }
 
+// round is one step of the history of the pre-crash state: the entries App (payload sizes) are appended, then
+// TruncateLog(Keep) removes everything above offset Keep (-1 = the whole log).
+type round struct {
+	App  []int64 `json:"app"`
+	Keep int64   `json:"keep"`
+}
+
 type image struct {
 	Codec  string   `json:"codec"`
 	Seg    int64    `json:"seg"`
@@ -80,6 +87,7 @@ type image struct {
 	Idx    []string `json:"idx"`  // per read-only segment of the crashed WAL: ok | missing | empty | short | trunc | zeros | flip
 	Dmg    damage   `json:"dmg"`
 	Post   []int64  `json:"post"` // sizes of entries appended after the recovery
+	Hist   []round  `json:"hist"` // rounds of append + TruncateLog in front of the appends that complete Sizes (WalRecovery.tla: History)
 	Tear   []int64  `json:"tear"` // concretization: bytes kept of every torn record (-1 = chosen by seed)
 	RSeed  int64    `json:"rseed"` // concretization: seed of everything else that is chosen at random (0 = derived from -seed)
 	Exp    outcome  `json:"exp"`  // what the operational model of WalRecovery.tla computes (informative)
@@ -163,6 +171,63 @@ type base struct {
 	bases []int64
 	orig  []*proto.LogEntry
 	raw   [][]byte // marshalled payloads
+	stale map[int64]*proto.LogEntry // entries that the history removed, by id (WalRecovery.tla: StaleId)
+}
+
+// staleID is StaleId of WalRecovery.tla: the id of an entry appended in round r (1..) at offset o that a truncation removes.
+func staleID(r int, o int64) int64 { return 200 + 20*int64(r-1) + o }
+
+// histPlan turns the history into the sequence of real calls: per round the entries to append (with their ids) and
+// the truncation point; rest = index of the first entry of Sizes that is appended after the last round.
+type histStep struct {
+	app  []*proto.LogEntry
+	keep int64
+}
+
+func histPlan(im *image) (steps []histStep, rest int, stale map[int64]*proto.LogEntry, err error) {
+	stale = map[int64]*proto.LogEntry{}
+	var log []int64 // payload sizes of the log so far
+	for r, rd := range im.Hist {
+		st := histStep{keep: rd.Keep}
+		if len(rd.App) == 0 {
+			return nil, 0, nil, fmt.Errorf("round %d appends nothing", r+1)
+		}
+		for _, sz := range rd.App {
+			o := int64(len(log))
+			if o >= 20 {
+				return nil, 0, nil, fmt.Errorf("round %d: log longer than 20 entries", r+1)
+			}
+			id := o
+			for t := r; t < len(im.Hist); t++ {
+				if o > im.Hist[t].Keep {
+					id = staleID(r+1, o)
+				}
+			}
+			e, err := mkEntry(o, id, sz)
+			if err != nil {
+				return nil, 0, nil, err
+			}
+			if id != o {
+				stale[id] = e
+			}
+			st.app = append(st.app, e)
+			log = append(log, sz)
+		}
+		if rd.Keep < -1 || rd.Keep >= int64(len(log)) {
+			return nil, 0, nil, fmt.Errorf("round %d truncates to %d, the log has %d entries", r+1, rd.Keep, len(log))
+		}
+		log = log[:rd.Keep+1]
+		steps = append(steps, st)
+	}
+	if len(log) > len(im.Sizes) {
+		return nil, 0, nil, fmt.Errorf("the history leaves %d entries, sizes has %d", len(log), len(im.Sizes))
+	}
+	for i, sz := range log {
+		if im.Sizes[i] != sz {
+			return nil, 0, nil, fmt.Errorf("the history leaves an entry of size %d at offset %d, sizes says %d", sz, i, im.Sizes[i])
+		}
+	}
+	return steps, len(log), stale, nil
 }
 
 var baseCache = map[string]*base{}
@@ -185,7 +250,7 @@ func scratchRoot() string {
 }
 
 func getBase(im *image) (*base, error) {
-	key := fmt.Sprint(im.Codec, "/", im.Seg, "/", im.Sizes)
+	key := fmt.Sprint(im.Codec, "/", im.Seg, "/", im.Sizes, "/", im.Hist)
 	if b, ok := baseCache[key]; ok {
 		return b, nil
 	}
@@ -209,6 +274,14 @@ func getBase(im *image) (*base, error) {
 		}
 		b.orig = append(b.orig, e)
 		b.raw = append(b.raw, raw)
+	}
+	steps, rest, stale, err := histPlan(im)
+	if err != nil {
+		return nil, err
+	}
+	b.stale = stale
+	if im.Codec == "v1" && len(im.Hist) > 0 {
+		return nil, fmt.Errorf("a history needs the running code, which writes format v2 only")
 	}
 	if im.Codec == "v1" {
 		// the running code only writes v2; a v1 log is laid out with the v1 codec's own WriteRecord / WriteIndex
@@ -252,7 +325,22 @@ func getBase(im *image) (*base, error) {
 	if err != nil {
 		return nil, err
 	}
-	for _, e := range b.orig {
+	// the history, through the real calls: append, TruncateLog, ..., then the entries that complete the final log
+	for r, st := range steps {
+		for _, e := range st.app {
+			if err := w.AppendAsync(e); err != nil {
+				return nil, fmt.Errorf("history round %d append %d: %w", r+1, e.Offset, err)
+			}
+		}
+		last, err := w.TruncateLog(st.keep)
+		if err != nil {
+			return nil, fmt.Errorf("history round %d TruncateLog(%d): %w", r+1, st.keep, err)
+		}
+		if last != st.keep || w.LastOffset() != st.keep {
+			return nil, fmt.Errorf("history round %d TruncateLog(%d) returned %d, LastOffset %d", r+1, st.keep, last, w.LastOffset())
+		}
+	}
+	for _, e := range b.orig[rest:] {
 		if err := w.AppendAsync(e); err != nil {
 			return nil, fmt.Errorf("base append %d: %w", e.Offset, err)
 		}
@@ -690,6 +778,9 @@ func execute(im *image, seed int64) (hung bool, err error) {
 	for i, e := range b.orig {
 		x.known[int64(i)] = e
 	}
+	for id, e := range b.stale { // removed by the history: recognised, so that a resurrected entry is named in the observation
+		x.known[id] = e
+	}
 	o := &im.Obs
 	*o = outcome{Ents: []int64{}, PEnts: []int64{}, PRes: "none", PFirst: -1, PLast: -1}
 	ph := x.openAndRead(root, shard, im.Seg, im.Commit)
@@ -838,6 +929,14 @@ func normalize(im *image) {
 	if im.Tear == nil {
 		im.Tear = []int64{}
 	}
+	if im.Hist == nil {
+		im.Hist = []round{}
+	}
+	for r := range im.Hist {
+		if im.Hist[r].App == nil {
+			im.Hist[r].App = []int64{}
+		}
+	}
 	if im.Dmg.Field == "" {
 		im.Dmg = damage{Rec: -1, Field: "none", Cls: "none", At: -1}
 	}
@@ -894,9 +993,8 @@ func cmdGen(args []string) int {
 	segs := []int64{128, 160, 256, 512}
 	for k := 0; k < *n; k++ {
 		im := image{Codec: *cdc, Seg: segs[rng.Intn(len(segs))]}
-		nrec := 1 + rng.Intn(*maxRec)
 		maxPayload := im.Seg - h
-		for i := 0; i < nrec; i++ {
+		randSize := func() int64 {
 			var sz int64
 			switch rng.Intn(4) {
 			case 0:
@@ -909,8 +1007,65 @@ func cmdGen(args []string) int {
 			if sz > maxPayload {
 				sz = maxPayload
 			}
-			sz = reachable(sz)
-			im.Sizes = append(im.Sizes, sz)
+			return reachable(sz)
+		}
+		nrec := 1 + rng.Intn(*maxRec)
+		lastKeep := int64(-1)
+		if *cdc == "v2" && rng.Intn(3) == 0 {
+			// a history: rounds of append + TruncateLog, then the appends that complete the log.  Sizes come from a
+			// small palette and a replacement often has the size of the entry it replaces (a new leader overwrites a
+			// divergent tail with its own entries), so that new records end where removed ones ended.
+			palette := []int64{randSize(), randSize(), 24 + rng.Int63n(20)}
+			pick := func() int64 {
+				if rng.Intn(4) == 0 {
+					return randSize()
+				}
+				return palette[rng.Intn(len(palette))]
+			}
+			var log, removed []int64 // removed[o] = size of the entry last removed at offset o (0 = none)
+			for r, nr := 0, 1+rng.Intn(3); r < nr; r++ {
+				rd := round{}
+				for j, na := 0, 1+rng.Intn(5); j < na && len(log) < 12; j++ {
+					sz := pick()
+					if o := len(log); o < len(removed) && removed[o] > 0 && rng.Intn(2) == 0 {
+						sz = removed[o]
+					}
+					rd.App = append(rd.App, sz)
+					log = append(log, sz)
+				}
+				if len(rd.App) == 0 {
+					break
+				}
+				rd.Keep = int64(rng.Intn(len(log)+1)) - 1
+				if rng.Intn(3) == 0 && len(log) >= 3 { // remove at least two
+					rd.Keep = int64(rng.Intn(len(log) - 2))
+				}
+				if rd.Keep > 7 {
+					rd.Keep = 7
+				}
+				for o := int(rd.Keep) + 1; o < len(log); o++ {
+					for len(removed) <= o {
+						removed = append(removed, 0)
+					}
+					removed[o] = log[o]
+				}
+				log = log[:rd.Keep+1]
+				lastKeep = rd.Keep
+				im.Hist = append(im.Hist, rd)
+			}
+			im.Sizes = append(im.Sizes, log...)
+			for na := rng.Intn(4); na > 0 || len(im.Sizes) == 0; na-- {
+				sz := pick()
+				if o := len(im.Sizes); o < len(removed) && removed[o] > 0 && rng.Intn(3) > 0 {
+					sz = removed[o]
+				}
+				im.Sizes = append(im.Sizes, sz)
+			}
+			nrec = len(im.Sizes)
+		} else {
+			for i := 0; i < nrec; i++ {
+				im.Sizes = append(im.Sizes, randSize())
+			}
 		}
 		recs, bases, err := layout(im.Sizes, h, im.Seg)
 		if err != nil {
@@ -923,6 +1078,9 @@ func cmdGen(args []string) int {
 		im.Synced = lo + rng.Int63n(int64(nrec)-lo)
 		if rng.Intn(5) == 0 {
 			im.Synced = int64(nrec) - 1
+		}
+		if im.Synced < lastKeep { // TruncateLog flushes what it keeps
+			im.Synced = lastKeep
 		}
 		im.Commit = -1 + rng.Int63n(im.Synced+2)
 		states := []string{"complete", "absent", "tornh", "tornp"}
